@@ -124,6 +124,18 @@ class SideEffect(Merge11):
         self.v = v
 
 
+class Zähler(Merge11):
+    """resolvable class with a non-ASCII name (the class global in the pickle is UTF-8)"""
+    CID = 22
+    SEED = 22
+
+
+class Größe(Tree):
+    """non-ASCII name, NO resolver: the conflict must end in ConflictError (whose constructor reads
+    the class name out of the pickle), not in a decoding error"""
+    CID = 23
+
+
 class NewArgs(Merge11):
     """class with `__getnewargs__`: references to its instances are pickled as a bare oid and its
     records carry a (class, args) tuple as meta data"""
@@ -181,6 +193,9 @@ TABLE = {
     18: ('c10_classes', 'SideEffect', 1, 1, 'v18'),
     19: ('c10_pkg.sub.classes', 'DeepMerge', 1, 1, 'v19'),
     21: ('BTrees.Length', 'Length', 1, 1, 'k'),
+    22: ('c10_classes', 'Zähler', 1, 1, 'v22'),
+    23: ('c10_classes', 'Größe', 1, 0, 'e'),
+    24: ('c10_classes', 'Fehlt_ä', 0, 0, 'e'),
     9: ('c10_classes', 'Gone', 0, 0, 'e'),
     8: ('nosuchmodule_c10', 'Gone', 0, 0, 'e'),
     20: ('ZODB.tests.MinPO', 'MinPO', 1, 0, 'e'),
